@@ -31,7 +31,7 @@ def run(chk):
         "deflate trailer constant, the flush mode follows no-context-takeover; no data frame is written after close."
     )
     chk.not_decided = "payload equality and message order end to end, equality of the compression contexts across histories, segmentation independence of the reader beyond the resumable-state rules shared with C12 (C11.rx.*)."
-    chk.explanation += " Also decided: a per-message deflate context is created only without context takeover; the reader's resumable-state, opcode-reset and masking-key rules (shared with C12) are evaluated here as C11.rx.*."
+    chk.explanation += " Also decided: a per-message deflate context is created only without context takeover; the reader's resumable-state, opcode-reset and masking-key rules (shared with C12) are evaluated here as C11.rx.*. After the defect hunt: the Close frame is written under the send lock after _closing was set; per-message windows are clamped to the negotiated one; oversized control frames are refused."
     wc = repo.cls(WM, W)
     sf = repo.func(WM, f"{W}.send_frame")
     wf = repo.func(WM, f"{W}._write_websocket_frame")
